@@ -158,14 +158,14 @@ def hstep (s : HState) (ws : List String) : HState × String :=
     match parseTab t, parseInt? stopAt, parseNat? mask with
     | some i, some st, some mask =>
       let visit : Nat → Node → Int × Bool := fun idx _ =>
-        (if (idx : Int) = st then 7 else 0, mask.testBit (idx % 62))
+        (if (idx : Int) = st then stopValue st else 0, mask.testBit (idx % 62))
       fin (foreach hf s.tabs[i]! visit) (fun (t', r, seen) =>
         (setT s i t', "r=" ++ toString r ++ " v=" ++ ids seen))
     | _, _, _ => bad
   | ["fconst", t, stopAt] =>
     match parseTab t, parseInt? stopAt with
     | some i, some st =>
-      let visit : Nat → Node → Int := fun idx _ => if (idx : Int) = st then 7 else 0
+      let visit : Nat → Node → Int := fun idx _ => if (idx : Int) = st then stopValue st else 0
       fin (foreachConst hf s.tabs[i]! visit) (fun (r, seen) =>
         (s, "r=" ++ toString r ++ " v=" ++ ids seen))
     | _, _ => bad
